@@ -62,7 +62,7 @@ Qed.
 Print Assumptions C13_stray.
 
 (* ---- the oracle evaluated on the implementation holds of the model, for every input ---- *)
-Require Import Wire.Case Spec.Oracles Spec.OracleFactsCopy Spec.OracleFactsCopy2.
+Require Import Wire.Case Spec.Oracles Spec.OracleFactsCopy Spec.OracleFactsCopy2 Spec.OracleFactsEnd.
 From Coq Require Import String.
 Local Open Scope string_scope.
 Local Open Scope list_scope.
@@ -93,6 +93,16 @@ Theorem C13_model_satisfies_strict : forall sc,
 Proof. exact oracle_C13_strict_model. Qed.
 Print Assumptions C13_model_satisfies_strict.
 
+(* ... and a failing COPY never costs the connection: for every configuration (COPY handlers included) and client
+   stream, when the server closes the connection while client messages are still to come, the message it handled
+   last is a Terminate or one it could not read (truncated, malformed) — never a handler error, which is reported
+   with ErrorResponse + ReadyForQuery and leaves the session usable *)
+Theorem C13_model_never_drops_the_connection : forall sc,
+  (forall v after rest, start (cfg_of_case sc) (sc_raw sc) = Some (v, after, rest) -> v <> version_ssl) ->
+  oracle_early_scan sc (run_case sc) = true.
+Proof. exact oracle_early_scan_model. Qed.
+Print Assumptions C13_model_never_drops_the_connection.
+
 Definition ex_copy_stmt : stmt :=
   {| s_id := 7; s_cols := [ {| c_name := bs "a"; c_table := 0; c_attrno := 0; c_oid := 25; c_width := -1 |} ];
      s_poids := []; s_prog := [HCopyIn 0; HCopyRead; HCopyRead; HCopyRead; HComplete (bs "COPY 2")];
@@ -112,5 +122,5 @@ Example C13_ex_model :
   List.length (filter (fun r => match r with OData _ => true | _ => false end) (opres_evs (run_case ex_copy_case))) = 3%nat /\
   List.length (filter (fun m => match m with BCopyIn _ _ => true | _ => false end) (outs (run_case ex_copy_case))) = 3%nat /\
   oracle_C13 ex_copy_case (run_case ex_copy_case) = true /\ oracle_C13_turns ex_copy_case (run_case ex_copy_case) = true /\
-  oracle_C13_strict ex_copy_case (run_case ex_copy_case) = true.
+  oracle_C13_strict ex_copy_case (run_case ex_copy_case) = true /\ oracle_early_scan ex_copy_case (run_case ex_copy_case) = true.
 Proof. vm_compute. repeat split. Qed.
